@@ -22,6 +22,7 @@ LEVEL_TEXT = ('static typestate: extracted transition relation == documented rel
               'Condition and FlowVar. Exactly-once resumption across clocks is not decided.')
 LEVEL_NOTE = 'reference relation is written from the property statement and the docstrings (DESIGN appendix A.6)'
 LEVEL_TEXT_ADD = ' Also: failures that are not Exception subclasses, re-entrant next(), terminal value cleared by reset.'
+LEVEL_TEXT_ADD += ' Rounds e-f: the parked routine is the root of the parent chain (thread_player).'
 LEVEL_TEXT = (globals().get('LEVEL_TEXT') or EXPLANATION) + LEVEL_TEXT_ADD
 TECHNIQUE = 'static analysis: enum-domain abstract interpretation over enumerated paths (typestate) + must-pass-through'
 
